@@ -4411,6 +4411,12 @@ def unify_chunks(*args, **kwargs):
             nameinds.append((a, ind))
 
     chunkss = broadcast_dimensions(nameinds, blockdim_dict, consolidate=common_blockdim)
+    # An axis of total length 0 or 1 is held in ONE chunk by every operand (see the
+    # rechunking below, which treats it like a broadcast axis): report it that way even
+    # if an operand had it split into several (zero-size) chunks.
+    chunkss = {
+        j: (sum(c),) if len(c) > 1 and sum(c) <= 1 else c for j, c in chunkss.items()
+    }
     nparts = math.prod(map(len, chunkss.values()))
 
     if warn and nparts and nparts >= max_parts * 10:
